@@ -10,5 +10,6 @@ CONSTRAINT Bound
 INVARIANT CacheFaithful
 INVARIANT NoFabrication
 INVARIANT ValueIsRequested
+INVARIANT HistoryNotFabricated
 PROPERTY NoStoreOnFailure
 CHECK_DEADLOCK FALSE
